@@ -56,7 +56,12 @@ def gen_case(st, tier):
                 impls[r["name"]] = {"h": rp.getrandbits(40), "hh": rp.getrandbits(40), "bind": bind,
                                     "ctxs": sorted(rp.sample(range(nctx), k)),
                                     "out": rf.choice(OUTS), "elems": rp.choice([1, 2, 3])}
-        case["classes"].append({"name": "D%d" % c, "impls": impls})
+        cl = {"name": "D%d" % c, "impls": impls, "parent": None}
+        if c > 0 and rp.random() < 0.12:
+            cl["parent"] = rp.randrange(c)          # derived from an implementing class, not from the declaring one
+        case["classes"].append(cl)
+    # evaluations in the middle of the history (a long-lived process: evaluate, load another spec package, evaluate again)
+    case["eval_after"] = sorted(set(k for k in range(ncls - 1) if rp.random() < 0.25))
     case["active"] = rp.randrange(nctx)
     rs = st.sched
     k = rs.choice(["run", "run", "order", "incr", "all"])
@@ -90,6 +95,31 @@ class SpecWorld(object):
         plugins.datasource(*deps)(g)
         return g
 
+    def define_class(self, ci):
+        case = self.case
+        c = case["classes"][ci]
+        cb = {"__module__": w1.MODNAME}
+        for rn in sorted(c["impls"]):
+            im = c["impls"][rn]
+            tag = "%s.%s" % (c["name"], rn)
+            cs = [self.ctxs[k] for k in im["ctxs"]]
+            if im["bind"] == "one":
+                deps = [cs[0]]
+            elif im["bind"] == "list":
+                deps = [list(cs)]
+            elif im["bind"] == "helper":
+                deps = [self.mk_ds(tag + ".helper", im["hh"], [cs[0]], "value")]
+            else:
+                deps = [self.mk_ds(tag + ".helper", im["hh"], [list(cs)], "value")]
+            multi = [r for r in case["rps"] if r["name"] == rn][0]["multi"]
+            ds = self.mk_ds(tag, im["h"], deps, im["out"], multi, im.get("elems", 1))
+            cb[rn] = ds
+            self.impls[(ci, rn)] = ds
+        parent = self.base
+        if c.get("parent") is not None and c["parent"] in self.classes:
+            parent = self.classes[c["parent"]]
+        self.classes[ci] = type(c["name"], (parent,), cb)          # the real metaclass wires the implementations
+
     def build(self):
         case = self.case
         self.ctxs = [SeededCtxMeta(c["name"], (ExecutionContext,), {"_h": c["h"], "__module__": w1.MODNAME})
@@ -102,25 +132,7 @@ class SpecWorld(object):
             self.rps[r["name"]] = p
         self.base = type("VSpecs", (SpecSet,), body)
         self.impls = {}          # (class index, rp name) -> datasource object
-        for ci, c in enumerate(case["classes"]):
-            cb = {"__module__": w1.MODNAME}
-            for rn in sorted(c["impls"]):
-                im = c["impls"][rn]
-                tag = "%s.%s" % (c["name"], rn)
-                cs = [self.ctxs[k] for k in im["ctxs"]]
-                if im["bind"] == "one":
-                    deps = [cs[0]]
-                elif im["bind"] == "list":
-                    deps = [list(cs)]
-                elif im["bind"] == "helper":
-                    deps = [self.mk_ds(tag + ".helper", im["hh"], [cs[0]], "value")]
-                else:
-                    deps = [self.mk_ds(tag + ".helper", im["hh"], [list(cs)], "value")]
-                multi = [r for r in case["rps"] if r["name"] == rn][0]["multi"]
-                ds = self.mk_ds(tag, im["h"], deps, im["out"], multi, im.get("elems", 1))
-                cb[rn] = ds
-                self.impls[(ci, rn)] = ds
-            type(c["name"], (self.base,), cb)          # the real metaclass wires the implementations
+        self.classes = {}
         self.parsers = {}
         ev = self.ev
         for r in case["rps"]:
@@ -134,16 +146,21 @@ class SpecWorld(object):
             self.parsers[r["name"]] = pg
 
 
-def expected(case):
-    """rp name -> dict(latest=tag|None, value=..., must_not_run=[tags])"""
+def expected(case, upto=None):
+    """rp name -> dict(latest=tag|None, value=..., must_not_run=[tags]) for the classes defined so far."""
     a = case["active"]
     out = {}
+    classes = case["classes"][:upto] if upto is not None else case["classes"]
     for r in case["rps"]:
         rn = r["name"]
-        regs = [(ci, c["name"], c["impls"][rn]) for ci, c in enumerate(case["classes"]) if rn in c["impls"]]
+        # a class derived from an implementing class (not from the declaring one) registers nothing: its datasources are
+        # not implementations of the spec (the code wires direct sub-classes only) and must never contribute
+        regs = [(ci, c["name"], c["impls"][rn]) for ci, c in enumerate(classes) if rn in c["impls"] and c.get("parent") is None]
+        second = ["%s.%s" % (c["name"], rn) for c in classes if rn in c["impls"] and c.get("parent") is not None]
         cands = [(ci, cn, im) for ci, cn, im in regs if a in im["ctxs"]]
         others = [(ci, cn, im) for ci, cn, im in regs if a not in im["ctxs"]]
-        e = {"must_not_run": ["%s.%s" % (cn, rn) for ci, cn, im in cands[:-1]] + ["%s.%s" % (cn, rn) for ci, cn, im in others],
+        e = {"must_not_run": ["%s.%s" % (cn, rn) for ci, cn, im in cands[:-1]] + ["%s.%s" % (cn, rn) for ci, cn, im in others] + second,
+             "second_level": second,
              "latest": None, "value": w1.ABSENT, "n_candidates": len(cands), "n_impls": len(regs)}
         if cands:
             ci, cn, im = cands[-1]
@@ -156,53 +173,67 @@ def expected(case):
     return out
 
 
-def run_case(case):
-    world = SpecWorld(case)
-    w1w = w1.World({"nodes": [], "observers": [], "seeded": [], "store_skips": case["store_skips"], "hostctx": False,
-                    "targets": None})
-    with registry.scope():
-        with w1.Patches(w1w, case.get("debug_log")):
-            world.build()
-            graph = {}
-            for p in world.parsers.values():
-                graph.update(dr.get_dependency_graph(p))
-            broker = dr.Broker()
-            broker.store_skips = case["store_skips"]
-            act = world.ctxs[case["active"]]
-            broker[act] = act()
-            d = case["driver"]
-            escaped = None
-            try:
-                if d["kind"] == "run":
-                    dr.run(graph, broker)
-                elif d["kind"] == "order":
-                    order = w1.linear_extension(graph, random.Random(d["order_seed"]))
-                    dr.run_components(order, graph, broker)
-                elif d["kind"] == "incr":
-                    list(dr.run_incremental(graph, broker))
-                else:
-                    dr.run_all(graph, broker, None)
-            except HarnessError:
-                raise
-            except Exception as ex:
-                escaped = ex
-            obs = {"escaped": escaped, "ev": list(world.ev), "rp": {}, "parser_missing": {}, "ignore": {},
-                   "faults_fired": world.faults_fired}
-            for rn, p in world.rps.items():
-                obs["rp"][rn] = broker[p] if p in broker else w1.ABSENT
-                pg = world.parsers[rn]
-                obs["parser_missing"][rn] = pg in broker.missing_requirements
-            for (ci, rn), ds in world.impls.items():
-                obs["ignore"]["%s.%s" % (case["classes"][ci]["name"], rn)] = sorted(c.__name__ for c in dr.IGNORE.get(ds, ()))
+def evaluate(case, world):
+    graph = {}
+    for p in world.parsers.values():
+        graph.update(dr.get_dependency_graph(p))
+    broker = dr.Broker()
+    broker.store_skips = case["store_skips"]
+    act = world.ctxs[case["active"]]
+    broker[act] = act()
+    d = case["driver"]
+    escaped = None
+    del world.ev[:]
+    try:
+        if d["kind"] == "run":
+            dr.run(graph, broker)
+        elif d["kind"] == "order":
+            order = w1.linear_extension(graph, random.Random(d["order_seed"]))
+            dr.run_components(order, graph, broker)
+        elif d["kind"] == "incr":
+            list(dr.run_incremental(graph, broker))
+        else:
+            dr.run_all(graph, broker, None)
+    except HarnessError:
+        raise
+    except Exception as ex:
+        escaped = ex
+    obs = {"escaped": escaped, "ev": list(world.ev), "rp": {}, "parser_missing": {}, "ignore": {},
+           "faults_fired": dict(world.faults_fired)}
+    for rn, p in world.rps.items():
+        obs["rp"][rn] = broker[p] if p in broker else w1.ABSENT
+        pg = world.parsers[rn]
+        obs["parser_missing"][rn] = pg in broker.missing_requirements
+    for (ci, rn), ds in world.impls.items():
+        obs["ignore"]["%s.%s" % (case["classes"][ci]["name"], rn)] = sorted(c.__name__ for c in dr.IGNORE.get(ds, ()))
     return obs
 
 
-def oracle(case, obs):
+def run_case(case):
+    """Defines the classes one after the other; evaluates after the last one and after each class listed in
+    case['eval_after'] (the registry as it is at that moment).  Returns [(number of classes defined, observation)]."""
+    world = SpecWorld(case)
+    w1w = w1.World({"nodes": [], "observers": [], "seeded": [], "store_skips": case["store_skips"], "hostctx": False,
+                    "targets": None})
+    out = []
+    with registry.scope():
+        with w1.Patches(w1w, case.get("debug_log")):
+            world.build()
+            n = len(case["classes"])
+            for ci in range(n):
+                world.define_class(ci)
+                if ci in (case.get("eval_after") or []) or ci == n - 1:
+                    out.append((ci + 1, evaluate(case, world)))
+    return out
+
+
+def oracle(case, obs, upto=None):
     out = []
     if obs["escaped"] is not None:
         out.append(V("C05.escape", "escape:%s" % type(obs["escaped"]).__name__, "evaluation raised %r" % (obs["escaped"],)))
         return out
-    exp = expected(case)
+    exp = expected(case, upto)
+    later = "" if upto in (None, len(case["classes"])) else ":mid-history"
     called = [e[1] for e in obs["ev"] if e[0] == "call"]
     parsed = {}
     for e in obs["ev"]:
@@ -215,6 +246,8 @@ def oracle(case, obs):
             if tag in called:
                 im = [c["impls"][rn] for c in case["classes"] if c["name"] == tag.split(".")[0]][0]
                 kind = "overridden-implementation-executed" if case["active"] in im["ctxs"] else "other-context-implementation-executed"
+                if tag in e["second_level"]:
+                    kind = "second-level-class-datasource-executed"
                 out.append(V("C05.resolution", "%s:%s" % (kind, im["bind"]),
                              "%s ran under active context %s although %s (%s)" % (
                                  tag, actname, "a later implementation for that context exists (%s)" % e["latest"]
@@ -248,6 +281,20 @@ def shrink(case):
         if n > 1:
             c = _copy(case)
             del c["classes"][k]
+            for cl in c["classes"]:
+                pa = cl.get("parent")
+                if pa is not None:
+                    cl["parent"] = None if pa == k else (pa - 1 if pa > k else pa)
+            c["eval_after"] = sorted(set((e - 1 if e > k else e) for e in (c.get("eval_after") or []) if e != k and (e - 1 if e > k else e) < len(c["classes"]) - 1))
+            yield c
+    for e in list(case.get("eval_after") or []):
+        c = _copy(case)
+        c["eval_after"] = [x for x in c["eval_after"] if x != e]
+        yield c
+    for k, cl in enumerate(case["classes"]):
+        if cl.get("parent") is not None:
+            c = _copy(case)
+            c["classes"][k]["parent"] = None
             yield c
     if len(case["rps"]) > 1:
         for k in range(len(case["rps"])):
@@ -338,12 +385,23 @@ class C05(Check):
         return gen_case(st, tier)
 
     def execute(self, case):
-        obs = run_case(case)
-        viols = oracle(case, obs)
+        evals = run_case(case)
+        viols = []
+        for upto, o in evals:
+            for v in oracle(case, o, upto):
+                if upto != len(case["classes"]):
+                    v["cls"] += ":mid-history"
+                    v["message"] = "after %d of %d class definitions: %s" % (upto, len(case["classes"]), v["message"])
+                viols.append(v)
+        obs = evals[-1][1]
         exp = expected(case)
         nontrivial = any(e["n_impls"] >= 2 and e["n_candidates"] >= 1 for e in exp.values())
         stats = {"faults_fired": dict(obs["faults_fired"]), "drivers": {case["driver"]["kind"]: 1}, "probes": {}}
         pr = stats["probes"]
+        if len(evals) > 1:
+            pr["histories_with_mid_history_evaluation"] = 1
+        if any(c.get("parent") is not None for c in case["classes"]):
+            pr["histories_with_second_level_class"] = 1
         for e in exp.values():
             if e["n_candidates"] >= 2:
                 pr["specs_with_overridden_candidate"] = pr.get("specs_with_overridden_candidate", 0) + 1
@@ -354,7 +412,7 @@ class C05(Check):
             if e["n_impls"] > e["n_candidates"] > 0:
                 pr["specs_with_mixed_context_implementations"] = pr.get("specs_with_mixed_context_implementations", 0) + 1
         # internal probe: the ignore sets the metaclass registered
-        dg = digest([obs["ev"], sorted(obs["rp"].items(), key=repr), sorted(obs["ignore"].items())])
+        dg = digest([[(u, o["ev"], sorted(o["rp"].items(), key=repr)) for u, o in evals], sorted(obs["ignore"].items())])
         return {"digest": dg, "sig": dg, "violations": viols, "stats": stats, "nontrivial": nontrivial, "sim_seconds": 0.0,
                 "distinct": {"histories": digest([case["classes"], case["active"], len(case["contexts"])])}}
 
